@@ -171,9 +171,11 @@ PROPS = {
                     "assembled theorem; with a registration racing the snapshot Stop hangs (known finding "
                     "C18-onopen-outlives-snapshot). The core engine's Shutdown is modelled as Stop (its context select is not "
                     "modelled). For the HTTP engine 'Stop / Shutdown returns nil' is one theorem from the point where every conn "
-                    "is settled (c18_http_stop_returns_when_settled: the remaining statements all run, result nil); that every "
-                    "conn becomes settled after the sweep is per-conn enabledness plus a per-conn rank under fair scheduling, "
-                    "not assembled into that theorem. Listener accepts, dials, in-flight writes and pending timers occur only in the real-engine "
+                    "is settled (c18_http_stop_returns_when_settled: the remaining statements all run, result nil), and from the "
+                    "swept state (c18_http_stop_returns_fair: every socket closed, no close job dropped; the conns take their own "
+                    "steps in any interleaving until none has a step left - fairness is a hypothesis on the schedule, at most 11 "
+                    "steps per conn - then all are settled, the map is empty, the result is nil); excluded: a conn still outside "
+                    "the map on its way in when the sweep runs, dropped close jobs, the pinned tree. Listener accepts, dials, in-flight writes and pending timers occur only in the real-engine "
                     "tier, where the model receives the observed opened/closed counts as inputs; that a stopped listener accepts "
                     "nothing further is observed in the real tier only (HttpStop: accept is disabled once the listeners are "
                     "closed; hsim: the late accept); the DialAsync registration-failure path is not a step of the model "
